@@ -706,7 +706,9 @@ fn from_elem_wrapped<T: Clone>(elem: T, n: usize) -> Vec<T> {
     unsafe {
         ALLOC_SEEN = true;
         if ALLOC_CHECK {
-            assert!(n <= ALLOC_LIMIT, "allocation sized by a length field larger than the bytes present");
+            // the loader reads long strings in chunks: a single allocation may be as large as the
+            // bytes present or one 64 KiB chunk, never as large as an (unchecked) length field
+            assert!(n <= ALLOC_LIMIT || n <= 64 * 1024, "allocation sized by a length field larger than the bytes present");
         }
     }
     let mut k = 0;
